@@ -2,26 +2,51 @@
 import itertools
 from hutil import S, unS, canon_floats, canon_floats_w
 import parsergen as G
+from props import C01 as L
 
 MODEL = "C02"
 PROP_FILES = ["Props/C02.v"]
-RULE = ("token sequences over a per-format adversarial alphabet ('', '-', '--', '---', '--=', '-=', known/unknown long and short "
-        "options with and without '=value', grouped shorts, negative numbers, 'null', words, command names/aliases) x 40 small "
-        "formats x strict/lenient: exhaustive to length 2 (quick) / 3 (thorough) for all formats and one more for 6 of them, "
-        "seeded random to length 6; non-trivial = reaches an error or sets a value; distinct by (format, mode, tokens)")
+RULE = ("formats = 40 fixed small ones + small formats drawn from the seed (options of every mode/type/nullable/short/default, <= 2 "
+        "arguments, command names, base levels) x strict/lenient.  (a) token sequences over a per-format adversarial alphabet "
+        "('', '-', '--', '---', '--=', '-=', known/unknown long and short options with and without '=value', '=-5', a second '=', "
+        "groups of 2-4 short options with junk and values, negative numbers, 'null', words, command names/aliases): exhaustive to "
+        "length 2 over the whole alphabet and at length 3 over one representative per token class (10 tokens; thorough: 22 "
+        "tokens at length 3, 10 at length 4), seeded random of length 3-6 over the whole alphabet.  (b) single-fault mutations of valid C01 lines (any spelling, groups included): an unknown long "
+        "/ short option inserted between two items or appended to a group of flags, a required argument dropped, a surplus "
+        "positional added, the value of a value-requiring option stripped, a typed value replaced by an unconvertible text, a "
+        "value attached to a flag - the oracle demands the error kind the statement fixes for that fault.  Non-trivial = reaches "
+        "an error or sets a value; distinct by (format, mode, tokens)")
 TRUSTED = []
-ASSUMPTIONS = ["formats are valid (built through ArgsFormat), option/argument objects are valid (C07)"]
+ASSUMPTIONS = ["formats are valid (built through ArgsFormat), option/argument objects are valid (C07)",
+               "exhaustive depth is 2 over the whole alphabet and 3 (quick) / 4 (thorough) over a reduced one, not the 6 of the quantifier; lengths 3..6 are sampled"]
 
 EXTRA = ["zz", "z"]
 
 
+def is_flag(o):
+    return L.okind(o) == "flag"
+
+
 def alphabet(levels):
-    toks = ["", "-", "--", "---", "--=", "-=", "--zz", "--zz=1", "-z", "-5", "null", "word", "x"]
-    for o in G.fmt_options(levels):
+    toks = ["", "-", "--", "---", "--=", "-=", "--zz", "--zz=1", "-z", "-5", "null", "word", "x", "true"]
+    opts = G.fmt_options(levels)
+    for o in opts:
         toks += ["--" + o["long"], "--" + o["long"] + "=val", "--" + o["long"] + "=", "--" + o["long"] + "=5"]
+        if not is_flag(o):
+            toks += ["--" + o["long"] + "=-5", "--" + o["long"] + "=a=b"]
         if o["short"]:
             toks += ["-" + o["short"], "-" + o["short"] + "val", "-" + o["short"] + "5", "-" + o["short"] + "=", "-v" + o["short"],
                      "-" + o["short"] + "v", "--" + o["short"]]
+    # groups of the format's own short names: flags only, flags + a valued member (value omitted / glued), a repeated flag,
+    # an unknown letter in the middle
+    sf = [o["short"] for o in opts if o["short"] and is_flag(o)]
+    sv = [o["short"] for o in opts if o["short"] and not is_flag(o)]
+    if sf:
+        toks += ["-" + sf[0] * 3, "-" + sf[0] + "z" + sf[0]]
+    if len(sf) >= 2:
+        toks += ["-" + sf[0] + sf[1], "-" + "".join(sf[:3]) + sf[0]]
+    if sf and sv:
+        toks += ["-" + "".join(sf[:3]) + sv[0], "-" + "".join(sf[:2]) + sv[0] + "VAL", "-" + sf[0] + sv[0] + "-5"]
     for c in G.fmt_cnames(levels):
         toks += [c["name"]] + c["aliases"]
     seen, out = set(), []
@@ -32,47 +57,216 @@ def alphabet(levels):
     return out
 
 
+def reduced_alphabet(levels, size=10):
+    """one representative per token class (what the token loop and the option handlers distinguish)"""
+    opts = G.fmt_options(levels)
+    toks = ["", "-", "--", "--zz", "-z", "x"]
+    flags = sorted([o for o in opts if is_flag(o)], key=lambda o: o["short"] is None)
+    valued = sorted([o for o in opts if not is_flag(o)], key=lambda o: o["short"] is None)
+    if flags:
+        f = flags[0]
+        toks.append("-" + f["short"] if f["short"] else "--" + f["long"])
+    if valued:
+        v = valued[0]
+        toks += ["--" + v["long"], "--" + v["long"] + "=val"]
+        if v["short"]:
+            toks.append("-" + v["short"] + "val")
+    cns = G.fmt_cnames(levels)
+    if cns:
+        toks.append(cns[0]["name"])
+    # room left: further classes
+    more = []
+    if flags and valued and flags[0]["short"] and valued[0]["short"]:
+        more.append("-" + flags[0]["short"] + valued[0]["short"])
+    if flags:
+        more.append("--" + flags[0]["long"] + "=val")
+    if valued and valued[0]["short"]:
+        more.append("-" + valued[0]["short"])
+    if len(valued) > 1:
+        more.append("--" + valued[1]["long"] + "=5")
+    if len(flags) > 1:
+        more.append("-" + flags[1]["short"] if flags[1]["short"] else "--" + flags[1]["long"])
+    more += ["-5", "null", "--=", "5"]
+    more += alphabet(levels)            # then whatever else the full alphabet holds, in its order
+    for t in more:
+        if len(toks) >= size:
+            break
+        if t not in toks:
+            toks.append(t)
+    return toks
+
+
+# ---------------------------------------------------------------- single-fault mutations of valid lines
+# the error kind the statement fixes for each fault (hutil.exc_code: 1 ValueError, 2 cannot-parse, 3 no-such-option)
+FAULT_CODE = {"unknown-long-option": 3, "unknown-short-option": 3, "unknown-letter-in-group": 3, "missing-required-argument": 2,
+              "surplus-positional": 2, "required-value-stripped": 2, "unconvertible-option-value": 1, "unconvertible-argument-value": 1,
+              "value-given-to-flag": 2}
+
+
+def looks_ahead(e):
+    """an entry whose last option may still take the next token as its value (value omitted)"""
+    return e[0] == "o" and (e[2][0] == 2 or (e[2][0] == 3 and e[2][2] and e[2][2][1][0] == 2))
+
+
+def first_dashed(entries, i):
+    """the token after entry i-1 starts with '-' (or there is none): a value look-ahead from entry i-1 finds nothing"""
+    if i >= len(entries):
+        return True
+    e = entries[i]
+    t = "--" if e[0] == "dd" else (e[1] if e[0] in ("n", "p") else e[1][0])
+    return t.startswith("-")
+
+
+def faults(entries, levels, rng):
+    """-> [(fault name, tokens)]: each a single fault applied to the valid line `entries` (see C01.spell_all)"""
+    opts = G.fmt_options(levels)
+    args = G.fmt_args(levels)
+    longs = {o["long"]: o for o in opts}
+    shorts = set(o["short"] for o in opts if o["short"])
+    unk = next(c for c in "ZXYWKJ" if c not in shorts)
+    dd = next((i for i, e in enumerate(entries) if e[0] == "dd"), len(entries))
+    toks = lambda es: L.finish(es)[0]
+    out = []
+    b = rng.randint(0, dd)                                   # a boundary between two items in front of "--"
+    out.append(("unknown-long-option", toks(entries[:b] + [("x", [rng.choice(["--zz", "--zz=1", "--" + unk.lower() * 2])], None)] + entries[b:])))
+    b = rng.randint(0, dd)
+    out.append(("unknown-short-option", toks(entries[:b] + [("x", [rng.choice(["-" + unk, "-" + unk + "x", "-" + unk + "=1"])], None)] + entries[b:])))
+    fl = [i for i, e in enumerate(entries) if L.is_short_flag(e) or (e[0] == "o" and e[2][0] == 3 and not e[2][2])]
+    if fl:
+        i = rng.choice(fl)
+        e = entries[i]
+        out.append(("unknown-letter-in-group", toks(entries[:i] + [("x", [e[1][0] + unk + rng.choice(["", e[1][0][1]])], None)] + entries[i + 1:])))
+    vals = [i for i, e in enumerate(entries) if e[0] == "p"]
+    nreq = sum(1 for a in args if a["flags"] & G.A_REQ)
+    multi = any(a["flags"] & G.A_MULTI for a in args)
+    if nreq >= 1 and len(vals) == nreq:
+        i = rng.choice(vals)
+        out.append(("missing-required-argument", toks(entries[:i] + entries[i + 1:])))
+    if not multi and len(vals) == len(args):
+        bs = [b for b in range(len(entries) + 1) if not (b > 0 and looks_ahead(entries[b - 1]))]
+        b = rng.choice(bs)
+        out.append(("surplus-positional", toks(entries[:b] + [("p", "surplus")] + entries[b:])))
+    # the value of a value-requiring option stripped
+    cand = []
+    for i, e in enumerate(entries):
+        if e[0] != "o":
+            continue
+        d = e[2]
+        if d[0] == 1 and L.okind(longs[unS(d[1])]) in ("req", "multi"):
+            o = longs[unS(d[1])]
+            if d[2] == 0:
+                cand.append((i, ["--" + o["long"] + "="]))
+            elif first_dashed(entries, i + 1):
+                cand.append((i, ["--" + o["long"]] if d[2] == 1 else ["-" + o["short"]]))
+        elif d[0] == 3 and d[2] and d[2][1][0] in (0, 1) and L.okind(longs[unS(d[2][0])]) in ("req", "multi") and first_dashed(entries, i + 1):
+            letters = "".join(longs[unS(n)]["short"] for n in d[1]) + longs[unS(d[2][0])]["short"]
+            cand.append((i, ["-" + letters]))
+    if cand:
+        i, t = rng.choice(cand)
+        out.append(("required-value-stripped", toks(entries[:i] + [("x", t, None)] + entries[i + 1:])))
+    # a typed value replaced by a text that does not convert
+    cand = []
+    for i, e in enumerate(entries):
+        if e[0] == "o" and e[2][0] == 1 and L.otype(longs[unS(e[2][1])]) != "str":
+            o, form = longs[unS(e[2][1])], e[2][2]
+            t = [["--" + o["long"] + "=abc"], ["--" + o["long"], "abc"], ["-" + (o["short"] or "") + "abc"], ["-" + (o["short"] or ""), "abc"]][form]
+            cand.append((i, t))
+    if cand:
+        i, t = rng.choice(cand)
+        out.append(("unconvertible-option-value", toks(entries[:i] + [("x", t, None)] + entries[i + 1:])))
+    cand = [i for k, i in enumerate(vals) if args and L.atype(args[min(k, len(args) - 1)]) != "str"]
+    if cand:
+        i = rng.choice(cand)
+        out.append(("unconvertible-argument-value", toks(entries[:i] + [("p", "abc")] + entries[i + 1:])))
+    cand = [i for i, e in enumerate(entries) if e[0] == "o" and e[2][0] == 0]
+    if cand:
+        i = rng.choice(cand)
+        out.append(("value-given-to-flag", toks(entries[:i] + [("x", ["--" + unS(entries[i][2][1]) + rng.choice(["=val", "=", "=1"])], None)] + entries[i + 1:])))
+    return out
+
+
+def mutation_stream(rng, tier, fmts):
+    n_asg, n_lines = {"quick": (5, 8), "thorough": (12, 20), "search": (2, 2)}[tier]
+    cases, hist = [], {}
+    for fref, levels in fmts:
+        for asg in L.assignments(levels, rng, n_asg, max_multi=2):
+            for entries in L.spell_all(levels, asg, rng, limit=n_lines, group_bias=0.4) if True else []:
+                if len(entries) > 14:
+                    continue
+                segs = L.group_segments(entries)
+                if segs and rng.random() < 0.6:
+                    entries = L.grouped(entries, max(segs, key=lambda s: (s[1] - s[0], rng.random())))
+                for name, toks in faults(entries, levels, rng):
+                    hist[name] = hist.get(name, 0) + 1
+                    for lenient in (0, 1):
+                        c = {"len": lenient, "toks": toks, "fault": name}
+                        c.update(fref)
+                        cases.append(c)
+    return cases, hist
+
+
+def formats(rng, tier):
+    n = {"quick": 12, "thorough": 24, "search": 4}[tier]
+    fmts = [({"f": fi}, lv) for fi, lv in enumerate(G.SMALL_FORMATS)]
+    for i in range(n):
+        lv = G.rand_levels(rng, nopts=rng.randint(1, 3), nargs=rng.randint(0, 2), ncn=rng.choice([0, 0, 1]), nbase=rng.choice([0, 0, 1]),
+                           short_flags=(0, 1, 2)[i % 3], short_valued=(0, 1)[i % 2])
+        fmts.append(({"lv": lv}, lv))
+    return fmts
+
+
 def gen(rng, tier, info):
-    depth = {"quick": 2, "thorough": 3, "search": 2}[tier]
     nrand = {"quick": 20000, "thorough": 200000, "search": 10000}[tier]
+    fmts = formats(rng, tier)
     cases = []
     hist = {}
-    for fi, levels in enumerate(G.SMALL_FORMATS):
+
+    def add(fref, lenient, toks):
+        c = {"len": lenient, "toks": list(toks)}
+        c.update(fref)
+        cases.append(c)
+    # exhaustive: the whole alphabet to length 2; one representative per token class (10 tokens) at length 3 (quick);
+    # thorough: 22 tokens at length 3 and 10 at length 4
+    plan = {"quick": [(10, 3)], "thorough": [(22, 3), (10, 4)], "search": []}[tier]
+    for fref, levels in fmts:
         al = alphabet(levels)
-        d = depth + (1 if fi in (0, 7, 21, 22, 28, 33) else 0)
-        if len(al) > 30 and d > depth:
-            al_deep = al[:13] + [t for t in al[13:] if "=" not in t][:12]
-        else:
-            al_deep = al
-        for k in range(0, d + 1):
-            use = al if k <= depth else al_deep
-            for seq in itertools.product(use, repeat=k):
+        for k in range(0, 3):
+            for seq in itertools.product(al, repeat=k):
                 for lenient in (0, 1):
-                    cases.append({"f": fi, "len": lenient, "toks": list(seq)})
-        hist[fi] = len(al)
+                    add(fref, lenient, seq)
+        for size, k in plan:
+            for seq in itertools.product(reduced_alphabet(levels, size), repeat=k):
+                for lenient in (0, 1):
+                    add(fref, lenient, seq)
+        hist[str(fref.get("f", "generated"))] = [len(al)] + [min(size, len(reduced_alphabet(levels, size))) for size, _ in plan]
     n_ex = len(cases)
+    mut, mhist = mutation_stream(rng, tier, fmts) if tier != "search" else ([], {})
+    cases += mut
     for _ in range(nrand):
-        fi = rng.randrange(len(G.SMALL_FORMATS))
-        al = alphabet(G.SMALL_FORMATS[fi])
-        k = rng.randint(depth + 1, 6)
-        cases.append({"f": fi, "len": rng.randint(0, 1), "toks": [rng.choice(al) for _ in range(k)]})
+        fref, levels = fmts[rng.randrange(len(fmts))]
+        al = alphabet(levels)
+        k = rng.randint(3, 6)
+        add(fref, rng.randint(0, 1), [rng.choice(al) for _ in range(k)])
     info["exhaustive"] = True
-    info["distribution"] = {"formats": len(G.SMALL_FORMATS), "exhaustive_cases": n_ex, "random_cases": nrand,
-                            "alphabet_sizes": hist, "exhaustive_len": depth}
+    info["distribution"] = {"formats": len(fmts), "generated_formats": sum(1 for f, _ in fmts if "lv" in f),
+                            "exhaustive_cases": n_ex, "random_cases": nrand, "alphabet_sizes (full, reduced...)": hist,
+                            "exhaustive_len_full_alphabet": 2, "exhaustive (alphabet size, length) reduced": plan,
+                            "single_fault_mutations": len(mut), "by_fault": mhist}
     return cases
 
 
 def wire(c):
-    return [G.wire_levels(G.SMALL_FORMATS[c["f"]]), c["len"], [S(t) for t in c["toks"]], [S(x) for x in EXTRA]]
+    return [G.wire_levels(G.case_levels(c)), c["len"], [S(t) for t in c["toks"]], [S(x) for x in EXTRA]]
 
 
 def describe(c):
-    return "format#%d %s tokens=%r" % (c["f"], "lenient" if c["len"] else "strict", c["toks"])
+    return "format %s %s tokens=%r%s" % (("#%d" % c["f"]) if "f" in c else G.fmt_shape(c["lv"]), "lenient" if c["len"] else "strict", c["toks"],
+                                        (" (a valid line with one fault: %s)" % c["fault"]) if c.get("fault") else "")
 
 
 def run_impl(c):
     from clikit.args import DefaultArgsParser
-    fmt = G.mk_format(G.SMALL_FORMATS[c["f"]])
+    fmt = G.case_format(c)
     out = G.parse_once(DefaultArgsParser(), fmt, c["toks"], bool(c["len"]), EXTRA)
     # the property's third clause needs the strict result next to the lenient one
     if c["len"]:
@@ -97,6 +291,11 @@ def oracle(c, o):
             return "other-exception-escapes:%d" % code
         if c["len"] and code in (2, 3):
             return "lenient-raises-parse-error:%d" % code
+    if not c["len"] and c.get("fault"):
+        # a valid line with exactly one fault: the statement fixes the error kind
+        want = FAULT_CODE[c["fault"]]
+        if r != [-1, want]:
+            return "fault-%s-gives:%s" % (c["fault"], "accepted" if r[0] == 0 else "error-%d" % r[1])
     if not c["len"] and r[0] == 0:
         why = must_fail(c)
         if why:
@@ -109,8 +308,8 @@ def oracle(c, o):
 
 
 def must_fail(c):
-    """single-fault shapes that strict parsing has to reject, decided from the tokens alone"""
-    levels = G.SMALL_FORMATS[c["f"]]
+    """faulty shapes that strict parsing has to reject (by whichever of the parse errors comes first), decided from the tokens alone"""
+    levels = G.case_levels(c)
     opts = {o["long"]: o for o in G.fmt_options(levels)}
     shorts = {o["short"]: o for o in G.fmt_options(levels) if o["short"]}
     toks = c["toks"]
@@ -122,23 +321,36 @@ def must_fail(c):
             o = opts.get(name) or shorts.get(name)
             if o is None:
                 return "unknown-option"
-            valueless = bool(o["flags"] & G.NO_VALUE) or not (o["flags"] & (G.REQ_V | G.OPT_V | G.MULTI_V))
+            valueless = is_flag(o)
             if eq and valueless:
                 return "value-given-to-flag"
             needs = bool(o["flags"] & (G.REQ_V | G.MULTI_V))
             if needs and ((eq and val == "") or (not eq and (i + 1 == len(toks) or toks[i + 1].startswith("-") or toks[i + 1] == ""))):
                 return "required-value-missing"
+        elif t.startswith("-") and t != "-":
+            # short options: the letters are flags up to the first one that takes a value (the rest is its value)
+            for j, ch in enumerate(t[1:]):
+                o = shorts.get(ch)
+                if o is None:
+                    return "unknown-short-option"
+                if not is_flag(o):
+                    needs = bool(o["flags"] & (G.REQ_V | G.MULTI_V))
+                    if needs and j == len(t) - 2 and (i + 1 == len(toks) or toks[i + 1].startswith("-") or toks[i + 1] == ""):
+                        return "required-value-missing"
+                    break
     return None
 
 
 def nontrivial_key(c, o):
     r = o[0]
     if r[0] == -1 or (r[0] == 0 and (r[1][0] or r[1][2])):
-        return [c["f"], c["len"], c["toks"]]
+        return [c.get("f", c.get("lv")), c["len"], c["toks"]]
     return None
 
 
 def shrink(c):
     t = c["toks"]
     for i in range(len(t)):
-        yield {"f": c["f"], "len": c["len"], "toks": t[:i] + t[i + 1:]}
+        d = {k: v for k, v in c.items() if k not in ("toks", "fault")}
+        d["toks"] = t[:i] + t[i + 1:]
+        yield d
